@@ -193,6 +193,8 @@ def inputs_for(prop, tier):
             items.append({"kind": "at-point", "point": "merge.selected", "config": {"merge": {"policy": "always", "check_interval_ms": 40, "triggers": trig}}})
             items.append({"kind": "at-point", "point": "bg.sync.woke", "config": {"sync": {"interval_ms": 30}}})
             items.append({"kind": "writer-busy", "config": far})
+            # (the write in flight still has a system call to make after the point it is held at: its rollover)
+            items.append({"kind": "writer-busy", "config": {"max_file_size": 10, "merge": {"policy": "always", "check_interval_ms": 3600000}}})
             # the `window` policy (every hour inside the window) goes through the same life cycle
             win = {"window": {"start": 0, "end": 23}}
             items.append({"kind": "at-point", "point": "bg.merge.woke", "config": {"merge": {"policy": win, "check_interval_ms": 40, "triggers": trig}}})
